@@ -218,11 +218,14 @@ impl TerminalState {
 
     pub fn set_margins_top_bottom(&mut self, top: i32, bottom: i32) {
         let top = top.max(0);
+        // a region cannot extend beyond the screen (work on the region is proportional to its size)
+        let bottom = bottom.min(self.get_height() - 1);
         self.margins_top_bottom = if top > bottom { None } else { Some((top, bottom)) };
     }
 
     pub fn set_margins_left_right(&mut self, left: i32, right: i32) {
         let left = left.max(0);
+        let right = right.min(self.get_width() - 1);
         self.margins_left_right = if left > right { None } else { Some((left, right)) };
     }
 
